@@ -48,6 +48,8 @@ def run(ctx):
         c08.rule_c(_P(ctx), g)
     ctx.ok("C09.c", "restore/operand-not-narrowed", "", "no unguarded narrowing cast on the "
            "RESTORE operand's way from the parser to push_restore")
+    from rules import c20 as _c20, common as _common
+    _c20.rule_d(_common.Proxy(ctx, "C09.b"), cr)
     rule_d(ctx, cr)
     rule_e(ctx, cr)
     ctx.rule("C09.g", "the data segment belongs to the stored program: a direct-mode line cannot add "
